@@ -78,7 +78,12 @@ is_5321_local (const char *start, const char *end)
             qpair = 0;
         else {
             switch (ch) {
-            case '"':   quote = 0; break;
+            case '"':
+                /* a quoted-string is a whole word: '.' or the end must follow */
+                if ((cp + 1) < end && cp[1] != '.')
+                    return inverse(EEAV_LPART_MISPLACED_QUOTE);
+                quote = 0;
+                break;
             case '\\':  qpair = 1; break;
             }
         }
